@@ -12,6 +12,7 @@ RULE = ("async: G_live witness graphs run once per record-setting class (all fie
         "supervisor-only dicts) vs no recording: final GraphState identical, executed rows equal the host trace, unexecuted rows stay -1; one "
         "evaluation = one (graph, record setting) run; non-trivial = setting that records at least one optional field or truncates; distinct "
         "by spec digest x setting")
+RULE += " Built later: async episodes of different length per setting with message/window consistency; a wall-clock case in which one node's step moves its own ts forward; compiled late starts, reset/step with user-overridden supervisor steps, extra user entries in graph_state.aux."
 MIN_NONTRIVIAL = {"quick": 24, "thorough": 300}
 DECIDING = ["rows_vs_trace", "runs_compared"]
 ASSUMPTIONS = ["the host trace (ordered io_callback inside the witness step) is independent of rex's recording", "async runs are comparable across settings "
